@@ -23,6 +23,7 @@ type Result struct {
 	Prog      *Program    `json:"program"`
 	Tape      []int       `json:"tape"`
 	TapeSeed  int64       `json:"tape_seed,omitempty"`
+	TapeFork  int64       `json:"tape_fork,omitempty"`
 	Viols     []Violation `json:"violations,omitempty"`
 	Stats     Stats       `json:"stats"`
 	Trace     []string    `json:"trace,omitempty"`
